@@ -47,8 +47,10 @@ Init == /\ series \in Inputs
         /\ heap = 1..NSeries
         /\ phase = "pop" /\ base = <<>> /\ ov = <<>> /\ omax = 0 /\ prev = <<>> /\ out = <<>>
 
-(* pop id off the heap, advance it and push it back when it has another chunk *)
-Advance(id) == LET r == CNext(its[id]) IN
+(* pop id off the heap, advance it and push it back when it has another chunk.                 *)
+(* ((\E r \in {e} : ...) binds the value of e once: TLC re-evaluates action-level LET          *)
+(* definitions at every use.)                                                                 *)
+Advance(id) == \E r \in {CNext(its[id])} :
                /\ its' = [its EXCEPT ![id] = r.it]
                /\ heap' = IF r.ok THEN heap ELSE heap \ {id}
 
@@ -75,12 +77,11 @@ Absorb == /\ phase = "absorb" /\ Overlapping
 Finish == /\ phase = "absorb" /\ ~Overlapping
           /\ IF ov = <<>>
                THEN out' = Append(out, base) /\ UNCHANGED <<its, heap>>
-               ELSE LET r == CNext(NewAggr(ov \o <<base>>))              \* never empty: base has a sample
-                        r2 == CNext(r.it)
-                        id == Len(its) + 1
-                    IN /\ out' = Append(out, CAt(r.it))
+               ELSE \E r \in {CNext(NewAggr(ov \o <<base>>))} :            \* never empty: base has a sample
+                    \E r2 \in {CNext(r.it)} :
+                       /\ out' = Append(out, CAt(r.it))
                        /\ its' = Append(its, r2.it)
-                       /\ heap' = IF r2.ok THEN heap \cup {id} ELSE heap
+                       /\ heap' = IF r2.ok THEN heap \cup {Len(its) + 1} ELSE heap
           /\ phase' = "pop"
           /\ UNCHANGED <<series, base, ov, omax, prev>>
 
